@@ -112,9 +112,24 @@ nat_const("tequila_Level", "pkg/application/arch/tequila/merge_viz.go",
 strlist_const("cloc_ignore_dirs", "pkg/application/cloc/cloc_app.go",
               r"func IsIgnoreDir.*?\[\]string\{(.*?)\}", "directories skipped by the by-directory report")
 
+strlist_const("cloc_exclude_dirs", "cmd/cloc.go",
+              r"&processor\.PathDenyList, \"exclude-dir\", \[\]string\{(.*?)\}", "default of --exclude-dir (scc path deny list)")
+nat_const("cloc_top_lang_limit", "cmd/cloc.go",
+          r"if len\(languageSummaries\) <= (\d+) \{", "top-file tables are printed for at most this many languages")
+cmp_const("cloc_top_size_cmp", "cmd/cloc.go",
+          r"if sizes (\S+) clocConfig\.TopSizes \{", "top-file truncation test")
+
 # ---- git log arguments (C14)
 strlist_const("git_log_args", "cmd/git.go",
               r"historyArgs := \[\]string\{(.*?)\}\s*$", "argument vector of the git log invocation")
+
+# ---- build dependencies (C19)
+str_const("deps_pom_block", "pkg/application/deps/maven_analysis.go",
+          r'val\.Name == "([^"]+)"', "name of the pom element whose children are the declared dependencies")
+str_const("deps_gradle_block", "pkg/infrastructure/ast/ast_groovy/groovy_identifier_listener.go",
+          r'GetText\(\) != "([^"]+)"', "name of the build.gradle closure whose statements are the declared dependencies")
+str_const("deps_coord_sep", "pkg/infrastructure/ast/ast_groovy/groovy_identifier_listener.go",
+          r'strings\.Split\(\w+, "([^"]+)"\)', "separator of group:artifact:version in ConvertToJDep")
 
 import json as _json
 if not errors:
